@@ -15,7 +15,8 @@
    call (os.kill / setpriority / ioprio_set / prlimit / sched_setaffinity) with the incarnation that received it
    (None: the kernel answered ESRCH).  Objects also come from process_iter() and from psutil.Popen; a Popen whose
    child was already gone carries as ghost a negative token (never in the table): it is "not alive" from birth. *)
-From PV Require Import Proc.Spec Proc.Live Proc.Proofs Proc.ProofsIter.
+From PV Require Import Proc.Spec Proc.Live Proc.Proofs Proc.ProofsIter Proc.ProofsAsserts.
+From PV Require Import Gen.C01_Tables.
 
 (* the process is gone and the PID belongs to another process: NoSuchProcess, and no system call at all *)
 Theorem C01_no_effect_on_new_owner : forall h o s,
@@ -214,6 +215,32 @@ Theorem C01_live_model_meets_spec : forall elig st op,
   match lspec elig st op with Some a => lstep elig st op = a | None => True end.
 Proof. exact lstep_meets_lspec. Qed.
 Print Assumptions C01_live_model_meets_spec.
+
+(* ---- interpreter modes (python -O / -OO / PYTHONOPTIMIZE): every assert statement, and every call made inside
+   one, vanishes.  [guard_asserts] (coq/Gen/C01_Tables.v) is generated by ast from the tree under test on every run:
+   all assert statements in the functions on the path of the guard (_raise_if_pid_reused, is_running, _send_signal,
+   the signal methods and setters, Process.__init__/_init/_get_ident/__eq__/__hash__/ppid/wait/oneshot/as_dict,
+   Popen, process_iter, wait_procs, _psposix.pid_exists/wait_pid, the _pslinux counterparts, wrap_exceptions,
+   memoize_when_activated ...), each with the flag "contains a Call, :=, await or yield". *)
+
+(* no assert on the guard path does anything: stripping them removes no call -- the guard cannot live in an assert.
+   (Moving `self._raise_if_pid_reused()` or `self.is_running()` into an assert breaks this obligation.) *)
+Theorem C01_guard_asserts_are_pure : forallb (fun a => negb (snd a)) guard_asserts = true.
+Proof. exact guard_asserts_pure. Qed.
+Print Assumptions C01_guard_asserts_are_pure.
+
+Theorem C01_guard_functions_scanned : (40 <= length guard_functions)%nat.
+Proof. exact guard_functions_scanned. Qed.
+Print Assumptions C01_guard_functions_scanned.
+
+(* the one assert there is (`assert not self.pid < 0` in _send_signal) never fails for an object of a reachable
+   world: the method with the assert stripped (do_setter_O) answers exactly like the method with it, so all
+   theorems above hold under -O as well *)
+Theorem C01_guard_same_without_asserts : forall h o x s,
+  wf_hist h = true -> nth_error (objs (ms (run h))) o = Some x ->
+  do_setter_O (view_of (run h)) x s = do_setter (view_of (run h)) x s.
+Proof. exact guard_same_without_asserts. Qed.
+Print Assumptions C01_guard_same_without_asserts.
 
 (* the pid attribute of an object is the PID its process was started under, and fits a pid_t *)
 Theorem C01_obj_pid_is_creation_pid : forall h o,
